@@ -40,7 +40,35 @@ func init() {
 				cur = unparen(se.X)
 			}
 			id, ok := cur.(*ast.Ident)
+			// a pointer read into a single-definition local first (scope := p.Scope; scope.RunMode)
+			for hops := 0; ok && hops < 3 && info.ObjectOf(id) != recv; hops++ {
+				base := xdefs.resolve1(info, id)
+				if base == ast.Expr(id) {
+					break
+				}
+				var more []string
+				for {
+					se, isSel := base.(*ast.SelectorExpr)
+					if !isSel {
+						break
+					}
+					more = append([]string{se.Sel.Name}, more...)
+					base = unparen(se.X)
+				}
+				bid, isID := base.(*ast.Ident)
+				if !isID || len(more) == 0 {
+					break // defined by a call (fork := new(Fork)) or the like: the local itself is the base
+				}
+				names = append(more, names...)
+				id = bid
+			}
 			if !ok || len(names) == 0 || names[len(names)-1] != "RunMode" {
+				// a local of the run-mode type that is assigned more than once (mode := scope's; if … { mode = block's })
+				if lid, isID := unparen(e).(*ast.Ident); isID && len(names) == 0 {
+					if v, isVar := info.ObjectOf(lid).(*types.Var); isVar && !v.IsField() && namedName(v.Type()) == "RunMode" && len(xdefs[v]) > 1 {
+						return "var"
+					}
+				}
 				return ""
 			}
 			o := info.ObjectOf(id)
@@ -72,6 +100,9 @@ func init() {
 			ast.Inspect(e, func(x ast.Node) bool {
 				if id, ok := x.(*ast.Ident); ok {
 					if r := xdefs.resolve1(info, id); r != ast.Expr(id) && strings.Contains(c.src(r), "RunMode") {
+						found = true
+					}
+					if v, isVar := info.ObjectOf(id).(*types.Var); isVar && !v.IsField() && namedName(v.Type()) == "RunMode" {
 						found = true
 					}
 				}
@@ -115,10 +146,25 @@ func init() {
 		}
 		type env struct{ block, scope bool }
 		undec := ""
+		// modeVars: what a several-times-assigned local of the run-mode type holds on the path being evaluated
+		modeVars := map[types.Object]string{}
+		varOf := func(e ast.Expr) types.Object {
+			if id, ok := unparen(e).(*ast.Ident); ok {
+				return info.ObjectOf(id)
+			}
+			return nil
+		}
 		var evalCond func(e ast.Expr, en env, cur string) bool
 		evalCond = func(e ast.Expr, en env, cur string) bool {
 			e = unparen(e)
 			switch x := e.(type) {
+			case *ast.Ident:
+				// a test kept in a boolean local defined once (blockHasMode := p.RunMode > runmode.Default)
+				if d := xdefs.resolve1(info, x); d != ast.Expr(x) {
+					if tv, ok := info.Types[d]; ok && tv.Type != nil && types.Identical(tv.Type.Underlying(), types.Typ[types.Bool]) {
+						return evalCond(d, en, cur)
+					}
+				}
 			case *ast.UnaryExpr:
 				if x.Op == token.NOT {
 					return !evalCond(x.X, en, cur)
@@ -153,6 +199,16 @@ func init() {
 						set = en.scope
 					case "fork":
 						set = cur != "untouched"
+					case "var":
+						switch modeVars[varOf(l)] {
+						case "block":
+							set = en.block
+						case "scope":
+							set = en.scope
+						default:
+							undec = "condition " + c.src(e) + " over a local with no recognised value"
+							return false
+						}
 					default:
 						undec = "condition " + c.src(e)
 						return false
@@ -175,7 +231,7 @@ func init() {
 				ast.Inspect(s, func(x ast.Node) bool {
 					if as, ok := x.(*ast.AssignStmt); ok {
 						for _, l := range as.Lhs {
-							if classify(l) == "fork" {
+							if k := classify(l); k == "fork" || k == "var" {
 								touches = true
 							}
 						}
@@ -188,12 +244,16 @@ func init() {
 				switch st := s.(type) {
 				case *ast.AssignStmt:
 					if len(st.Lhs) == 1 && len(st.Rhs) == 1 {
-						switch classify(st.Rhs[0]) {
-						case "block":
-							cur = "block"
-							continue
-						case "scope":
-							cur = "scope"
+						val := classify(st.Rhs[0])
+						if val == "var" {
+							val = modeVars[varOf(st.Rhs[0])]
+						}
+						if val == "block" || val == "scope" {
+							if classify(st.Lhs[0]) == "var" {
+								modeVars[varOf(st.Lhs[0])] = val
+							} else {
+								cur = val
+							}
 							continue
 						}
 					}
@@ -261,6 +321,9 @@ func init() {
 		}
 		bad := ""
 		for _, en := range []env{{false, false}, {false, true}, {true, false}, {true, true}} {
+			for k := range modeVars {
+				delete(modeVars, k)
+			}
 			got := exec(holder.List, en, "untouched")
 			if undec != "" {
 				break
@@ -298,7 +361,7 @@ func init() {
 			}
 			n++
 			guarded := false
-			for _, ft := range factsOf(guardsAt(info, stack)) {
+			for _, ft := range flagFacts(info, fe.Body, localDefs(info, fe.Body), factsOf(guardsAt(info, stack)), as.Pos()) {
 				be, ok := unparen(ft.E).(*ast.BinaryExpr)
 				if !ok {
 					continue
@@ -317,4 +380,3 @@ func init() {
 		c.MinCount("R05g", "stores of the module run mode in Fork.Execute", n, 1)
 	})
 }
-
